@@ -261,7 +261,11 @@ finish:
   child.err = redirect_destroy(child.err, options.redirect.err.type);
 #endif
 
-  pipe_destroy(child.exit);
+  if (r != 0) {
+    // In the forked child (`fork` option) the exit pipe has to stay open until
+    // the child exits, otherwise the parent thinks it has already exited.
+    pipe_destroy(child.exit);
+  }
 
   if (r < 0) {
     process->handle = process_destroy(process->handle);
